@@ -130,11 +130,53 @@ def ref_to_cel(d: Any) -> Any:
     raise TypeError(type(d))
 
 
+def ref_key_text(k: Any) -> str:
+    """member name json gives a map key, by kind (json: str as is, bool -> true/false, None -> null, int/float -> their repr)"""
+    from celpy import celtypes as ct
+    if k is None:
+        return "null"
+    if isinstance(k, (ct.BoolType, bool)):
+        return "true" if k else "false"
+    if isinstance(k, int):
+        return int.__repr__(k)
+    if isinstance(k, float):
+        return json.dumps(float(k))
+    if isinstance(k, str):
+        return str.__str__(k)
+    raise TypeError(f"keys must be str, int, float, bool or None, not {type(k).__name__}")
+
+
+def ref_json_text(v: Any) -> str:
+    """the JSON text of a CEL value, by kind — the oracle's own serialiser (adapter.CELJSONEncoder is code under test:
+    `celpy EXPR` must print the JSON serialisation of the value).  Only scalars go through `json.dumps` (native str / float);
+    the layout is json's default one (`, ` and `: `)."""
+    import base64
+    from celpy import celtypes as ct
+    if v is None:
+        return "null"
+    if isinstance(v, (ct.BoolType, bool)):
+        return "true" if v else "false"
+    if isinstance(v, int):
+        return int.__repr__(v)
+    if isinstance(v, float):
+        return json.dumps(float(v))
+    if isinstance(v, (ct.TimestampType, ct.DurationType)):
+        return json.dumps(str(v))
+    if isinstance(v, (bytes, bytearray)):
+        return json.dumps(base64.b64encode(bytes(v)).decode("ascii"))
+    if isinstance(v, str):
+        return json.dumps(str.__str__(v))
+    if isinstance(v, (list, tuple)):
+        return "[" + ", ".join(ref_json_text(x) for x in v) + "]"
+    if isinstance(v, dict):
+        return "{" + ", ".join(json.dumps(ref_key_text(k)) + ": " + ref_json_text(x) for k, x in v.items()) + "}"
+    raise TypeError(f"Object of type {type(v).__name__} is not JSON serializable")
+
+
 def analyse(c: Dict[str, Any]) -> Dict[str, Any]:
     """argsOk / compiles / per-line outcome tokens and texts, through Environment / program / evaluate"""
     import celpy
     from celpy import celtypes as ct
-    from celpy.adapter import CELJSONEncoder
     from celpy.evaluation import CELEvalError
     res: Dict[str, Any] = {"argsOk": True, "compiles": True, "loc": "-", "tokens": [], "texts": {}, "var": "jq"}
     pd = c.get("pd")
@@ -193,7 +235,7 @@ def analyse(c: Dict[str, Any]) -> Dict[str, Any]:
         if isinstance(v, (ct.BoolType, bool)):
             return "T" if v else "F"
         try:
-            res["texts"][f"V{i}"] = json.dumps(v, cls=CELJSONEncoder)
+            res["texts"][f"V{i}"] = ref_json_text(v)
         except Exception as ex:  # noqa
             return "R:" + type(ex).__name__
         return f"V{i}"
@@ -224,6 +266,12 @@ def analyse(c: Dict[str, Any]) -> Dict[str, Any]:
 # --------------------------------------------------------------------------------------------------
 
 FIELDS = ["a", "b", "s", "l", "f", "o"]
+# characters some line-splitting primitive other than "cut after \\n" treats as a line boundary (str.splitlines: VT FF FS GS RS NEL LS PS),
+# other Unicode blanks, a BOM.  U+0085 / U+2028 / U+2029 are legal RAW inside a JSON string (what any encoder with
+# ensure_ascii=False emits); the C0 ones are legal only escaped (json.dumps always escapes them).
+SEP_CHARS = ["\u0085", "\u2028", "\u2029", "\x0b", "\x0c", "\x1c", "\x1d", "\x1e"]
+ODD_STRINGS = ["a\u2028b", "\u2029", "x\u0085y", "\u2028\u2029\u0085", "nb\u00a0sp", "\ufeffbom", "wide\u3000space", "v\x0bt", "f\x0cf", "\x1c\x1d\x1e",
+               "del\x7f", "tab\there", "cr\rlf", "\u00e9\u2028"]
 
 
 def gen_obj(rng: random.Random) -> Any:
@@ -238,13 +286,15 @@ def gen_obj(rng: random.Random) -> Any:
         if k in ("a", "b"):
             d[k] = rng.choice([0, 1, 2, 3, -1, 10, 2**31, 2**62, -2**63, 2**63 - 1, rng.randint(-100, 100)])
         elif k == "s":
-            d[k] = rng.choice(["", "hi", "hello", "a b", "\u00e9", "\U0001F431", "x\"y", "line\nbreak", "h"])
+            d[k] = rng.choice(["", "hi", "hello", "a b", "\u00e9", "\U0001F431", "x\"y", "line\nbreak", "h"] if rng.random() < 0.8 else ODD_STRINGS)
         elif k == "l":
             d[k] = [rng.randint(-3, 9) for _ in range(rng.choice([0, 1, 2, 3, 5]))]
         elif k == "f":
             d[k] = rng.random() < 0.5
         else:
             d[k] = {"x": rng.randint(0, 5)} if rng.random() < 0.8 else {}
+            if rng.random() < 0.08:
+                d[k][rng.choice(ODD_STRINGS)] = rng.choice(ODD_STRINGS)
     return d
 
 
@@ -255,7 +305,10 @@ def gen_doc(rng: random.Random) -> Any:
     return rng.choice([[1, 2], [], 7, "text", None, True, 1.5, {}, [{"a": 1}], {"a": {"b": 2}}])
 
 
-MALFORMED = ["not json", "{", "[1,", "{'a': 1}", "{\"a\": }", "tru", "}{", "\"open", "1 2", "{\"a\": 1} trailing", "[1 2]", "01", "--1", "{\"a\":1,}"]
+MALFORMED = ["not json", "{", "[1,", "{'a': 1}", "{\"a\": }", "tru", "}{", "\"open", "1 2", "{\"a\": 1} trailing", "[1 2]", "01", "--1", "{\"a\":1,}",
+             # a complete value followed by something; values glued with a character that is NOT a JSON blank / line end for `for line in stdin`
+             "{\"a\": 1}{\"a\": 2}", "{\"a\": 1},", "{\"a\": 1}]", "2 3", "[1] x", "{\"a\": 1}\u2028{\"a\": 2}", "{\"a\": 1}\x0c{\"a\": 2}",
+             "{\"a\": 1}\u0085", "1\x1e2", "{\"a\": 1}\u2029", "\ufeff{\"a\": 1}", "{\"s\": \"raw\x0cff\"}", "{\"s\": \"raw\x1ers\"}", "\u00a0{\"a\": 1}"]
 BLANK = ["", " ", "\t", "   "]
 
 BOOL_T = ["{P}a > {P}b", "{P}a == 1", "{P}f", "!{P}f", "{P}f && {P}a > 0", "{P}f || {P}b < 0", "{P}s == \"hi\"", "{P}s.startsWith(\"h\")",
@@ -265,7 +318,11 @@ BOOL_T = ["{P}a > {P}b", "{P}a == 1", "{P}f", "!{P}f", "{P}f && {P}a > 0", "{P}f
 OTHER_T = ["{P}a + {P}b", "{P}a * 2", "{P}a - {P}b", "{P}a % 3", "{P}a / {P}b", "-{P}a", "{P}s", "{P}s + \"!\"", "{P}s + {P}s", "{P}l", "{P}l.map(x, x * 2)",
            "{P}l.filter(x, x > 1)", "{P}l + [0]", "[{P}a, {P}b]", "{P}l[0]", "{P}l[1] + {P}a", "{P}o", "{P}o.x", "{P}s.size()", "size({P}l)",
            "{P}a > 0 ? \"pos\" : \"neg\"", "{P}f ? {P}a : {P}b", "{{\"k\": {P}a}}", "{P}zz", "{P}a + 9223372036854775807", "string({P}a)", "int({P}s)",
-           "1 + 2", "\"lit\"", "[1, 2, 3]", "1 / 0", "{P}a + 1.5", "{P}l.map(x, x / {P}a)", "null", "{D}"]
+           "1 + 2", "\"lit\"", "[1, 2, 3]", "1 / 0", "{P}a + 1.5", "{P}l.map(x, x / {P}a)", "null", "{D}",
+           # values of every kind in every position of the result (map key, map value, list element, nested)
+           "{{{P}f: {P}a}}", "{{{P}a: {P}s}}", "{{{P}s: {P}o}}", "{P}l.map(x, {{x: x > 1}})", "{P}l.map(x, {{x > 1: x}})", "{{\"k\": {{{P}f: [{P}f, !{P}f]}}}}",
+           "{{!{P}f: null, {P}s: {P}f}}", "[{{true: {P}s}}, {{1: {P}f}}, {{2u: {P}a}}]", "{{1.5: {P}a, {P}a + 0.5: {P}b}}", "[{P}s, bytes({P}s), double({P}a), uint({P}l.size())]",
+           "{{{P}f: {{{P}f: {{{P}f: {P}l}}}}}}", "{{\"t\": timestamp(\"2020-01-02T03:04:05Z\") + duration(string({P}l.size()) + \"s\")}}", "{VAL}", "{VAL}", "{VAL}", "{VAL}"]
 NULL_BOOL = ["1 < 2", "2 < 1", "true", "false", "!true", "1 == 1 && 2 == 2", "\"a\" < \"b\"", "[1, 2].all(x, x > 0)", "[1, 2].exists(x, x > 5)",
              "2 in [1, 2]", "\"abc\".startsWith(\"a\")", "size([1]) == 1", "1 / 0 > 1", "[1][5] == 1", "1 > 2 || 3 > 2", "true ? false : true"]
 NULL_OTHER = ["1 + 2", "6 * 7", "7 / 2", "-7 % 3", "\"a\" + \"b\"", "[1, 2] + [3]", "[1, 2, 3].map(x, x * x)", "[3, 1, 2].filter(x, x > 1)", "size(\"abc\")",
@@ -296,6 +353,78 @@ ARG_EXPR = {
 }
 
 
+def cel_str(t: str) -> str:
+    """a CEL string literal denoting t"""
+    out = []
+    for ch in t:
+        o = ord(ch)
+        if ch in "\\\"":
+            out.append("\\" + ch)
+        elif 0x20 <= o < 0x7f:
+            out.append(ch)
+        elif o <= 0xffff:
+            out.append("\\u%04x" % o)
+        else:
+            out.append("\\U%08x" % o)
+    return '"' + "".join(out) + '"'
+
+
+VAL_STRINGS = ["", "a", "hi there", "x\"y", "back\\slash", "\u00e9", "\U0001F431", "line\nbreak", "nul\x00", "true", "1", "</script>"] + ODD_STRINGS[:6]
+VAL_INTS = ["0", "1", "-1", "42", "-7", "9223372036854775807", "-9223372036854775807", "1099511627776"]
+VAL_UINTS = ["0u", "1u", "7u", "18446744073709551615u"]
+VAL_DOUBLES = ["1.5", "-0.0", "0.0", "1e100", "2.5e-7", "3.0", "-123.456", "1.0 / 0.0", "-1.0 / 0.0", "1e22", "0.1 + 0.2"]
+VAL_BYTES = ['b""', 'b"abc"', 'b"\\xff\\x00"', 'b"\u00e9"']
+VAL_TIMES = ['timestamp("2020-01-02T03:04:05Z")', 'timestamp("2009-02-13T23:31:30.5+05:30")', 'timestamp("0001-01-01T00:00:00Z")',
+             'duration("90s")', 'duration("0s")', 'duration("-1.5s")', 'duration("1h30m")']
+# map keys: one pool per key kind; pools are disjoint as Python dict keys (True == 1, hash("") == hash(0)), so every literal is a valid map
+KEY_POOLS = {"bool": ["true", "false"], "int": ["2", "3", "-7", "1099511627776", "9223372036854775807"], "uint": ["5u", "11u", "18446744073709551615u"],
+             "string": None, "double": ["1.5", "-2.25", "1e100"]}
+
+
+def gen_value(rng: random.Random, depth: int, leaf: Optional[List[str]] = None, bool_leaf: Optional[str] = None) -> str:
+    """CEL text of a value of a random kind: every scalar kind, lists, maps keyed by bool / int / uint / string (/ double), nested.
+    `leaf`: extra sub-expressions (document fields) used as elements, values and keys."""
+    r = rng.random()
+    if depth <= 0 or r < 0.45:
+        k = rng.choice(["bool", "int", "uint", "double", "string", "string", "bytes", "null", "time"] + (["leaf", "leaf", "leaf"] if leaf else []))
+        if k == "bool":
+            return rng.choice(["true", "false"])
+        if k == "int":
+            return rng.choice(VAL_INTS)
+        if k == "uint":
+            return rng.choice(VAL_UINTS)
+        if k == "double":
+            return rng.choice(VAL_DOUBLES)
+        if k == "string":
+            return cel_str(rng.choice(VAL_STRINGS))
+        if k == "bytes":
+            return rng.choice(VAL_BYTES)
+        if k == "null":
+            return "null"
+        if k == "leaf":
+            return rng.choice(leaf)
+        return rng.choice(VAL_TIMES)
+    if r < 0.68:
+        return "[" + ", ".join(gen_value(rng, depth - 1, leaf, bool_leaf) for _ in range(rng.choice([0, 1, 2, 3]))) + "]"
+    kinds = rng.choice([["bool"], ["int"], ["uint"], ["string"], ["string"], ["bool", "string"], ["int", "string"], ["bool", "int", "uint", "string"], ["double"]])
+    keys: List[str] = []
+    for kk in kinds:
+        pool = KEY_POOLS[kk] or [cel_str(x) for x in VAL_STRINGS]
+        keys += rng.sample(pool, rng.choice([1, 2]) if len(pool) >= 2 else 1)
+    if bool_leaf and kinds[0] == "bool" and rng.random() < 0.5:      # the key computed from the document: {.f: …, !.f: …}
+        keys = [bool_leaf, "!" + bool_leaf] + keys[2:]
+    rng.shuffle(keys)
+    if not rng.randrange(6):
+        keys = []
+    return "{" + ", ".join(k + ": " + gen_value(rng, depth - 1, leaf, bool_leaf) for k in keys) + "}"
+
+
+FIXED_VALUES = ['{true: "yes", false: "no"}', '[{"k": {true: [false]}}, {1: true}]', '{1: {2u: {"s": {false: null}}}}', '{1.5: [1.5, {2.5e-7: -0.0}]}',
+                '[1, 2, 3].map(x, {x > 1: x})', '[true, false].map(f, {f: !f})', '{"b": b"\\xff", "t": timestamp("2020-01-02T03:04:05Z"), "d": duration("90s")}',
+                '[1.0 / 0.0, -1.0 / 0.0]', '{18446744073709551615u: 18446744073709551615u, 5u: -9223372036854775807}', '{"": "", "\\u2028": "\\u2029\\u0085"}',
+                '{b"k": 1}', '{timestamp("2020-01-02T03:04:05Z"): 1}', '{null: 1}', '[[], {}, [{}], {"a": []}]', '{"a": {"a": {"a": {true: {false: 1}}}}}']
+
+
 def render(t: str, prefix: str, docname: str) -> str:
     q = prefix if prefix != "" else ""
     return t.replace("{P}", prefix).replace("{Q}", q if q else "jq.").replace("{D}", docname).replace("{{", "{").replace("}}", "}")
@@ -310,23 +439,28 @@ def gen_expr(rng: random.Random, pd: Optional[List[str]], want_bool: bool) -> st
     t = rng.choice(BOOL_T if want_bool else OTHER_T)
     if prefix == "" and "{Q}" in t:
         prefix = "."
-    return render(t, prefix, docname)
+    e = render(t, prefix, docname)
+    if "{VAL}" in e:
+        e = e.replace("{VAL}", gen_value(rng, 3, [prefix + f for f in ("a", "s", "f", "l", "o", "l[0]", "o.x")], prefix + "f"))
+    return e
 
 
 def gen_stream(rng: random.Random, n: int) -> str:
     bad = rng.choice([0.0, 0.0, 0.0, 0.08, 0.15, 0.3])          # per-stream rate of non-JSON / blank lines
+    raw = rng.random() < 0.5                                     # non-ASCII text raw (ensure_ascii=False) or as \\uXXXX escapes
     lines = []
     for _ in range(n):
         r = rng.random()
         if r >= bad:
-            lines.append(json.dumps(gen_doc(rng), separators=rng.choice([(",", ":"), (", ", ": ")])))
+            lines.append(json.dumps(gen_doc(rng), separators=rng.choice([(",", ":"), (", ", ": ")]), ensure_ascii=not raw))
         elif r < bad * 0.65:
             lines.append(rng.choice(MALFORMED))
         else:
             lines.append(rng.choice(BLANK))
-    text = "\n".join(lines)
+    eol = "\r\n" if rng.random() < 0.06 else "\n"              # CRLF input: the \\r is a JSON blank at the end of each line
+    text = eol.join(lines)
     if lines and rng.random() < 0.8:
-        text += "\n"
+        text += eol
     return text
 
 
@@ -377,6 +511,12 @@ class C20(Prop):
         for e in NULL_BOOL + NULL_OTHER:
             for b in (False, True):
                 cases.append({"kind": "null", "mode": "n", "b": b, "expr": e, "args": [], "stdin": ""})
+        # values of every kind in every position (map keys of each key kind, nested containers, odd strings, boundary numbers): the printed text
+        # must be the JSON serialisation of the value (oracle: its own serialiser)
+        for e in FIXED_VALUES:
+            cases.append({"kind": "null", "mode": "n", "b": False, "expr": e, "args": [], "stdin": ""})
+        for i in range(150 if quick else 3000):
+            cases.append({"kind": "null", "mode": "n", "b": i % 7 == 0, "expr": gen_value(rng, 3), "args": [], "stdin": ""})
         # syntax errors in every mode
         for e in SYNTAX_ERRORS:
             mode = rng.choice(["n", "j", "s"])
@@ -413,6 +553,17 @@ class C20(Prop):
                     k += 1
                     text = json.dumps(shape(u)) + "\n" + json.dumps(shape(v)) + "\n" + (json.dumps(shape(u)) + "\n" if k % 2 else "")
                     cases.append({"kind": "stream", "mode": "j", "b": k % 3 == 0, "pd": None, "expr": e, "args": [], "stdin": text, "solo": True})
+        # one document per physical line, whatever the document contains: every character that a line-splitting primitive other than
+        # "cut after \\n" could take for a boundary, raw inside a string value / a member name (U+0085, U+2028, U+2029 are legal raw JSON; the C0 ones
+        # make the line malformed as a whole), and CRLF line ends; always re-run line by line
+        k = 0
+        for ch in SEP_CHARS + ["\u00a0", "\ufeff", "\u3000", "\x7f"]:
+            for shape, e in ((lambda z: {"s": "a" + z + "b"}, ".s"), (lambda z: {"k" + z: 1, "s": z}, "jq"), (lambda z: [z, z + z], "jq.size() == 2")):
+                k += 1
+                docs = [json.dumps(shape(ch), ensure_ascii=False), json.dumps(shape("-")), json.dumps(shape(ch + "x" + ch), ensure_ascii=False)]
+                cases.append({"kind": "stream", "mode": "j", "b": k % 3 == 0, "pd": None, "expr": e, "args": [], "stdin": "\n".join(docs[:2 + k % 2]) + "\n", "solo": True})
+        for eol in ("\r\n", "\n\n", " \n", "\t\r\n"):
+            cases.append({"kind": "stream", "mode": "j", "b": False, "pd": None, "expr": ".a", "args": [], "stdin": eol.join(['{"a": 1}', '{"a": [2]}', '{"a": "3"}']) + eol, "solo": True})
         # slurp
         for i in range(150 if quick else 3000):
             pd = rng.choice([None, None, ["p", "pk"], ["d", "doc"]])
@@ -434,6 +585,9 @@ class C20(Prop):
             picked += [c for c in pool if c["kind"] == kind][:k if quick else 8 * k]
         solos = [c for c in cases if c.get("solo") and c["expr"] == ".a"]
         picked += [solos[i] for i in ((0, 1) if quick else range(0, len(solos), 2)) if i < len(solos)]
+        seps = [c for c in cases if c.get("solo") and c["expr"] == ".s"]
+        picked += [seps[i] for i in ((1, 2) if quick else range(len(seps)))]
+        picked += [c for c in cases if c["kind"] == "null" and c["expr"] in FIXED_VALUES[:2 if quick else 15]]
         for c in picked:
             d = dict(c)
             d["sub"] = True
